@@ -18,6 +18,11 @@ SPEC_DIR = os.path.join(os.path.dirname(os.path.dirname(os.path.abspath(__file__
 class MachineryFailure(Exception):
     """TLC could not run the model (parse error, timeout, evaluation error)."""
 
+    def __init__(self, msg):
+        keep = [l for l in str(msg).splitlines()
+                if not l.startswith(("Parsing file", "Semantic processing of module", "Linting of module", "Running breadth-first", "TLC2 Version"))]
+        super().__init__("\n".join(keep))
+
 
 class TlcResult:
     def __init__(self):
